@@ -171,6 +171,12 @@ func genField(rng *rand.Rand, sb *strings.Builder, class string, s, f int, gener
 		decl = fmt.Sprintf("%s struct {\n\t\tA int `json:\"a\"`\n\t\tB string\n\t}", name)
 	case class == "G7" && rng.Intn(2) == 0:
 		decl = fmt.Sprintf("%s struct{ Y int `json:\"y\"` }", name)
+		if rng.Intn(2) == 0 && annotate {
+			// the outer literal is byte-identical to the inner one: a rewrite that looks for the
+			// literal's text instead of its position hits the wrong one
+			existing = []KV{{"json", "y"}}
+			have = map[string]bool{"json": true}
+		}
 	default:
 		pad := strings.Repeat(" ", rng.Intn(4))
 		decl = fmt.Sprintf("%s%s %s", name, pad, typ)
